@@ -90,7 +90,9 @@ def role_of_root(m, b, r):
     return names
 
 
-def templates_in(m, b, region=None):
+def templates_in(m, b, region=None, _depth=0):
+    """(block, Fmt) of the message texts built in b: format templates, constant texts handed to a sender, and — at the block of the call —
+    the templates of private helpers (functions all of whose callers lie in b's unit: an extracted `announce_…` helper)"""
     out = []
     for bi, f in core.string_builders(b):
         if is_log(b.term(bi)):
@@ -98,6 +100,22 @@ def templates_in(m, b, region=None):
         if region is not None and bi not in region:
             continue
         out.append((bi, f))
+    P = m.prog
+    for bi, t in b.calls():
+        if is_log(t) or (region is not None and bi not in region):
+            continue
+        d = callee_decl(t)
+        if ('try_send' in d or d.endswith('::send')) and t['args']:
+            fs, _o = wire.message_templates(P, b, t['args'][-1])
+            out += [(bi, f) for f in fs if f.bi is None]
+    if _depth < 2:
+        helpers = {h.id for h in P.private_helpers(b)}
+        for bi, t in b.calls():
+            if region is not None and bi not in region:
+                continue
+            cb = P.bodies.get(callee(t))
+            if cb is not None and cb.id in helpers and cb.id != b.id:
+                out += [(bi, f) for _, f in templates_in(m, cb, None, _depth + 1)]
     return out
 
 
@@ -385,6 +403,16 @@ def _run(ck, m):
         n += 1
         ok, why = loop_bounded(sb, h, body)
         ck.ob('C07.e', short(sb.id), 'wait-loop-%d' % n, ok, why, sb.loc(h))
+    # a wait loop moved into a private helper of the election (`wait_for_…`) is judged there
+    for hb_ in P.private_helpers(sb):
+        if hb_.kind not in ('fn', 'method'):
+            continue
+        for h, body in natural_loops(hb_):
+            if not any(hb_.term(x)['k'] == 'call' and callee_decl(hb_.term(x)).startswith('std::thread::sleep') for x in body):
+                continue
+            n += 1
+            ok, why = loop_bounded(hb_, h, body)
+            ck.ob('C07.e', short(sb.id), 'wait-loop-%d' % n, ok, why + ' (in %s)' % short(hb_.id), hb_.loc(h))
     ck.floor('C07.e', n, 2, 'wait loops in the election')
     # ---- (f) the acknowledgement wait re-tests eligibility --------------------------------------
     n_ack = 0
